@@ -7,6 +7,7 @@ import (
 	"encoding/json"
 	"fmt"
 	"os"
+	"os/exec"
 	"runtime"
 	"runtime/debug"
 	"sort"
@@ -48,9 +49,22 @@ func readCases(path string) []rawCase {
 // caseFn runs one case and returns the trace lines it produced (one per variant).
 type caseFn func(c rawCase) []traceLine
 
+// execHeavy is set by drivers that write executables and run them: such cases must not run on several
+// goroutines of one process (a concurrently forked child holds the write descriptor of a freshly written
+// script for a moment, and executing the script then fails with ETXTBSY).  They are sharded over worker
+// PROCESSES instead, each strictly sequential.
+var execHeavy = map[string]bool{}
+
 func runParallel(cases []rawCase, fn caseFn, outPath string, workers int) int {
 	if workers <= 0 {
 		workers = runtime.NumCPU()
+	}
+	if execHeavy[*flagProp] {
+		if *flagShard {
+			workers = 1
+		} else {
+			return runSharded(cases, outPath, workers)
+		}
 	}
 	type res struct {
 		idx   int
@@ -125,4 +139,71 @@ func sortedKeys(m map[string]string) []string {
 	}
 	sort.Strings(ks)
 	return ks
+}
+
+func runSharded(cases []rawCase, outPath string, procs int) int {
+	if procs > len(cases) {
+		procs = len(cases)
+	}
+	if procs < 1 {
+		procs = 1
+	}
+	self, err := os.Executable()
+	must(err)
+	type shard struct {
+		in, out string
+		cmd     *exec.Cmd
+	}
+	var shards []shard
+	for i := 0; i < procs; i++ {
+		in := fmt.Sprintf("%s.shard%d.in", outPath, i)
+		out := fmt.Sprintf("%s.shard%d.out", outPath, i)
+		f, err := os.Create(in)
+		must(err)
+		enc := json.NewEncoder(f)
+		for j := i; j < len(cases); j += procs {
+			must(enc.Encode(cases[j]))
+		}
+		f.Close()
+		cmd := exec.Command(self, "-prop", *flagProp, "-cases", in, "-out", out, "-seed", fmt.Sprint(*flagSeed), "-tier", *flagTier,
+			"-scratch", *flagScratch, "-lie", *flagLie, "-shard")
+		cmd.Stderr = os.Stderr
+		cmd.Env = append(os.Environ(), "GOMAXPROCS=2")
+		must(cmd.Start())
+		shards = append(shards, shard{in, out, cmd})
+	}
+	byID := map[int][]string{}
+	for _, s := range shards {
+		if err := s.cmd.Wait(); err != nil {
+			fmt.Fprintf(os.Stderr, "shard failed: %v\n", err)
+			os.Exit(3)
+		}
+		f, err := os.Open(s.out)
+		must(err)
+		sc := bufio.NewScanner(f)
+		sc.Buffer(make([]byte, 1<<20), 1<<26)
+		for sc.Scan() {
+			var l struct {
+				ID int `json:"id"`
+			}
+			must(json.Unmarshal(sc.Bytes(), &l))
+			byID[l.ID] = append(byID[l.ID], sc.Text())
+		}
+		f.Close()
+		os.Remove(s.in)
+		os.Remove(s.out)
+	}
+	f, err := os.Create(outPath)
+	must(err)
+	defer f.Close()
+	w := bufio.NewWriter(f)
+	n := 0
+	for _, c := range cases {
+		for _, l := range byID[c.ID] {
+			w.WriteString(l + "\n")
+			n++
+		}
+	}
+	must(w.Flush())
+	return n
 }
